@@ -19,7 +19,15 @@ import (
 	"golang.org/x/tools/go/ssa/ssautil"
 )
 
-const repoDir = "/repo"
+// repoDir is /repo. VERIF_REPO (a debugging aid for triaging seeded changes in a scratch worktree while /repo is in
+// use; never set by a registered check) points the analysis at another checkout; its evidence goes to out/.
+var repoDir = func() string {
+	if d := os.Getenv("VERIF_REPO"); d != "" {
+		return d
+	}
+	return "/repo"
+}()
+
 const verifDir = "/verif"
 const modPath = "mosn.io/mosn"
 
@@ -426,9 +434,14 @@ func (c *Ctx) finish(start time.Time, runErr error, mut *MutantSummary) int {
 		ev["violations"] = len(rep.Violations) + 1
 		cov["error"] = runErr.Error()
 	}
-	_ = os.MkdirAll(filepath.Join(verifDir, "evidence"), 0o755)
 	b, _ := json.MarshalIndent(ev, "", " ")
-	_ = os.WriteFile(filepath.Join(verifDir, "evidence", c.Prop+".json"), b, 0o644)
+	if os.Getenv("VERIF_REPO") != "" {
+		_ = os.MkdirAll(filepath.Join(verifDir, "out"), 0o755)
+		_ = os.WriteFile(filepath.Join(verifDir, "out", c.Prop+".scratch-evidence.json"), b, 0o644)
+	} else {
+		_ = os.MkdirAll(filepath.Join(verifDir, "evidence"), 0o755)
+		_ = os.WriteFile(filepath.Join(verifDir, "evidence", c.Prop+".json"), b, 0o644)
+	}
 
 	// console
 	fmt.Printf("mosncheck property=%s tier=%s packages=%d functions=%d obligations=%d discharged=%d known=%d violations=%d wall=%.1fs\n",
